@@ -25,11 +25,12 @@ def dump_mir(repo, scratch):
     return FC.dump_mir(repo, scratch)
 
 class Shape:
-    def __init__(self, neg, k, zero_int, f, exp, tail):
-        self.neg, self.k, self.zero_int, self.f, self.exp, self.tail = neg, k, zero_int, f, exp, tail
+    def __init__(self, neg, k, zero_int, f, exp, tail, bad=None):
+        self.neg, self.k, self.zero_int, self.f, self.exp, self.tail, self.bad = neg, k, zero_int, f, exp, tail, bad
     def key(self):
-        return "%s%s.%d%s%s" % ("-" if self.neg else "", "0" if self.zero_int else "d%d" % self.k, self.f,
-                                ("" if self.exp is None else "%s%s%d" % (self.exp[0], self.exp[1], self.exp[2])), "+pad" if self.tail else "")
+        return "%s%s.%d%s%s%s" % ("-" if self.neg else "", "0" if self.zero_int else "d%d" % self.k, self.f,
+                                  ("" if self.exp is None else "%s%s%d" % (self.exp[0], self.exp[1], self.exp[2])), "+pad" if self.tail else "",
+                                  "" if self.bad is None else "!" + self.bad)
 
 def build(ctx, sh, concrete=None, rnd=None):
     """bytes of the literal (after the sign, which the caller consumes) -> (data, int digits, frac digits, exp digits, length)"""
@@ -44,6 +45,8 @@ def build(ctx, sh, concrete=None, rnd=None):
         for i in range(sh.k):
             d = digit("i%d" % i, 49 if i == 0 else 48, 57)
             data.append(d); ints.append(d)
+    if sh.bad == "dot":                 # "12." : a dot without a fraction digit
+        data.append(46)
     if sh.f > 0:
         data.append(46)
         for i in range(sh.f):
@@ -56,6 +59,10 @@ def build(ctx, sh, concrete=None, rnd=None):
         for i in range(sh.exp[2]):
             d = digit("e%d" % i)
             data.append(d); exps.append(d)
+    if sh.bad == "exp":                 # "12e" / "1.5E-" : an exponent without a digit
+        data.append(101)
+    if sh.bad == "expsign":
+        data += [69, 45]
     n = len(data)
     if sh.tail:
         data += [44] + [48 + (i % 10) for i in range(24)]      # ",0123…": what follows must not matter (and enables the 16-byte reader)
@@ -129,6 +136,15 @@ def check_shapes(job):
                 res["unknown"].append((sh.key(), kind))
             elif r != "unsat":
                 res["errors"].append((sh.key(), r))
+        if sh.bad is not None:
+            # malformed literal: every path must answer InvalidNumber
+            for c, rv, st in outs:
+                res["outcomes"]["malformed"] = res["outcomes"].get("malformed", 0) + 1
+                if not (isinstance(rv, Adt) and rv.variant == "Err"):
+                    report("malformed literal accepted", c, [])
+                else:
+                    res["decided_returns"] += 1
+            continue
         for c, rv, st in outs:
             idx = st[(0, "idx")]
             report("consumed length differs from the literal's", c, ["(not (= %s %d))" % (sx(idx), n)])
@@ -209,6 +225,10 @@ def check_shapes(job):
                 res["errors"].append((sh.key(), r))
         # translator validation: concrete digits through the same MIR against python's exact arithmetic
         rnd = random.Random(hash(sh.key()) & 0xFFFF)
+        if sh.bad is not None:
+            res["validation"]["runs"] += 1
+            res["validation"]["reached_interpreted"] += 1
+            continue
         try:
             ipc, _, cdata, cints, cfracs, cexps, cn, couts = run(sh, Ctx(), concrete=True, rnd=rnd)
             res["validation"]["runs"] += 1
@@ -249,6 +269,11 @@ def shapes_for(tier):
     out = []
     for neg in (False, True):
         for tail in (False, True):
+            for k in ks:
+                out.append(Shape(neg, k, False, 0, None, tail, bad="dot"))
+                for f in (0, 1, 16, 17):
+                    out.append(Shape(neg, k, False, f, None, tail, bad="exp"))
+                    out.append(Shape(neg, k, False, f, None, tail, bad="expsign"))
             for f in fs:
                 for exp in exps:
                     out.append(Shape(neg, 1, True, f, exp, tail))
